@@ -1,4 +1,5 @@
-(* C14: hash / math / string module model.  Blocks are written  base:hex,base:hex  ("-" = no block). *)
+(* C14: hash / math / string module model.  Blocks are written  base:hex,base:hex  ("-" = no block).
+   fx = 1: model of the repaired break condition, 0: the loop as in 4.5.2 (Model/ModRange.v). *)
 let c14_parse_blocks (s : string) : (z * n list) list =
   if s = "-" then [] else
     List.map (fun t -> match String.index_opt t ':' with
@@ -11,14 +12,15 @@ let c14_dist (h : n list) : string =
   if Buffer.length b = 0 then "0" else Buffer.contents b
 
 let () = register "c14r" (fun args -> match args with
-  | [bl; off; len] ->
+  | [fx; bl; off; len] ->
+      let fx = (fx = "1") in
       let bs = c14_parse_blocks bl and off = z_of_string off and len = z_of_string len in
       Printf.sprintf "bytes=%s crc=%s sum=%s mode=%s dist=%s"
-        (c14_on hex (c14_addressed bs off len))
-        (c14_on string_of_n (c14_crc32 bs off len))
-        (c14_on string_of_n (c14_checksum32 bs off len))
-        (c14_on string_of_n (c14_mode bs off len))
-        (c14_on c14_dist (c14_distribution bs off len))
+        (c14_on hex (c14_addressed fx bs off len))
+        (c14_on string_of_n (c14_crc32 fx bs off len))
+        (c14_on string_of_n (c14_checksum32 fx bs off len))
+        (c14_on string_of_n (c14_mode fx bs off len))
+        (c14_on c14_dist (c14_distribution fx bs off len))
   | _ -> "usage")
 
 let () = register "c14g" (fun args -> match args with
@@ -27,26 +29,28 @@ let () = register "c14g" (fun args -> match args with
       Printf.sprintf "mode=%s dist=%s" (c14_on string_of_n (c14_mode_global bs)) (c14_on c14_dist (c14_distribution_global bs))
   | _ -> "usage")
 
-(* c14n <blocks> <byte> <off> <len> : count and percentage numerators with their argument check *)
+(* c14n <fx> <blocks> <byte> <off> <len> : count and percentage numerators with their argument check *)
 let () = register "c14n" (fun args -> match args with
-  | [bl; byte; off; len] ->
+  | [fx; bl; byte; off; len] ->
+      let fx = (fx = "1") in
       let bs = c14_parse_blocks bl and byte = z_of_string byte and off = z_of_string off and len = z_of_string len in
       Printf.sprintf "count=%s pct=%s gcount=%s gpct=%s"
-        (c14_on string_of_n (c14_count bs byte off len))
-        (c14_on (fun (a, b) -> string_of_n a ^ "/" ^ string_of_n b) (c14_percentage bs byte off len))
+        (c14_on string_of_n (c14_count fx bs byte off len))
+        (c14_on (fun (a, b) -> string_of_n a ^ "/" ^ string_of_n b) (c14_percentage fx bs byte off len))
         (c14_on string_of_n (c14_count_global bs byte))
         (c14_on (fun (a, b) -> string_of_n a ^ "/" ^ string_of_n b) (c14_percentage_global bs byte))
   | _ -> "usage")
 
-(* c14c <blocks> alg:off:len,alg:off:len,...  -> with cache | without cache ; each result "u" or tag+bytes hex *)
+(* c14c <fx> <blocks> alg:off:len,alg:off:len,...  -> with cache | without cache ; each result "u" or tag+bytes hex *)
 let () = register "c14c" (fun args -> match args with
-  | [bl; calls] ->
+  | [fx; bl; calls] ->
+      let fx = (fx = "1") in
       let bs = c14_parse_blocks bl in
       let cs = List.map (fun t -> match String.split_on_char ':' t with
         | [a; o; l] -> (n_of_int (int_of_string a), (z_of_string o, z_of_string l))
         | _ -> failwith "call") (String.split_on_char ',' calls) in
       let show r = String.concat "," (List.map (function Some l -> hex l | None -> "u") r) in
-      Printf.sprintf "cached=%s uncached=%s" (show (c14_cached bs cs)) (show (c14_uncached bs cs))
+      Printf.sprintf "cached=%s uncached=%s" (show (c14_cached fx bs cs)) (show (c14_uncached fx bs cs))
   | _ -> "usage")
 
 let () = register "c14s" (fun args -> match args with
